@@ -5,7 +5,7 @@ from vlib.skyb import hx
 PID = "C11"
 LEAN_MODULE = "Sb.Properties.C11"
 THEOREMS = [
-    "Sb.C11.constants", "Sb.C11.scanEntry_time_indep", "Sb.C11.scanLoop_eq_pickFirst", "Sb.C11.negative_time_lands",
+    "Sb.C11.constants", "Sb.C11.actions_match_format", "Sb.C11.action_predicates", "Sb.C11.scanEntry_time_indep", "Sb.C11.scanLoop_eq_pickFirst", "Sb.C11.negative_time_lands",
     "Sb.C11.no_entries_lands", "Sb.C11.action_resolved", "Sb.C11.evaluateAt_action", "Sb.C11.cumulative_overflow_is_error",
     "Sb.C11.duration_overflow_is_error", "Sb.C11.parseCoord_scaled", "Sb.C11.point_scaled",
 ]
